@@ -222,3 +222,38 @@ def every_secret_tried(ctx):
                   'in the %s branch of full_decaps an activated secret can be skipped without being tried (loop at line %d): rights '
                   'opened only through such a secret are dropped from the re-encapsulation' % ('hybridized' if hybrid else 'classic', c.ln),
                   'session_key on every path except the permitted bypasses', c.where())
+
+
+@rule('C18', 'recovery-unconditional', configs=('default', 'p256'))
+def recovery_unconditional(ctx):
+    """Every right whose secret opens the encapsulation is recovered: in the opening closure of full_decaps the insertion into
+    the right set is conditioned only by the tag comparison, the trap comparison and error propagation — not by state that
+    changes once a first right has been found."""
+    from .c02 import eq_guards
+    F = ctx.F
+    n = 0
+    for body in F.family('core::primitives::full_decaps'):
+        ins = [c for c in body.calls(r'^std::collections::HashSet::<[^>]*>::insert$') if 'Right' in c.full]
+        if not ins:
+            continue
+        eqs = set()
+        for (c, te, fe) in eq_guards(body):
+            for (sb, neg) in __import__('analyses.facts', fromlist=['switch_on']).switch_on(body, c.dest['l']):
+                eqs.add(sb)
+        tries = set(ts.sw_block for ts in lib.try_sites(body) if ts.sw_block is not None)
+        for c in ins:
+            n += 1
+            other = []
+            for b in sorted(body.live_blocks()):
+                t = body.term(b)
+                if t['k'] != 'switch' or b in eqs or b in tries:
+                    continue
+                for s in body.succs[b]:
+                    if len(body.succs[b]) > 1 and body.edge_dominates((b, s), c.b):
+                        # drop-flag switches and the like do not dominate; a real extra condition does
+                        other.append((b, t['ln']))
+            ctx.check(not other, 'core::primitives::full_decaps', 'rights.insert conditioned only by tag / trap checks',
+                      'the recovery of a right (line %d) also depends on another condition (switch at line %s): rights opened after the '
+                      'first one may be dropped from the re-encapsulation' % (c.ln, [ln for _b, ln in other][:2]),
+                      'guards: tag ==, traps ==, `?`', c.where())
+    ctx.floor(n, 1, 'right insertions in full_decaps')
